@@ -165,14 +165,14 @@ pub fn subjects(tier: Tier) -> Vec<Subject> {
     });
     // repository examples and the corpus program using every syntactic form
     for (name, text) in c07::corpus(Tier::Quick) {
-        if name.starts_with("file:") || name.starts_with("hand:") || (tier == Tier::Thorough && name.starts_with("doc:")) {
+        if name.starts_with("file:") || name.starts_with("hand:") || name.starts_with("doc:") {
             let consts = if name.starts_with("hand:") { vec![("PARTY_0".to_string(), "N".to_string(), usz(2))] } else { vec![] };
             out.push(Subject { name, src: text, consts, register: false });
         }
     }
     // generated programs
-    let (jobs, _) = c01::family_jobs(Tier::Quick, &["S", "P", "D"]);
-    let step = (jobs.len() / tier.pick(60, 400)).max(1);
+    let (jobs, _) = c01::family_jobs(Tier::Quick, &["S", "P", "D", "T", "X"]);
+    let step = (jobs.len() / tier.pick(400, 6000)).max(1);
     for (i, j) in jobs.iter().enumerate() {
         if i % step == 0 {
             let mut p = j.prog.clone();
@@ -182,7 +182,8 @@ pub fn subjects(tier: Tier) -> Vec<Subject> {
     }
     // a few ill-typed mutants (error lists)
     let bases = c17::base_programs(Tier::Quick);
-    for (k, rule) in [c17::Rule::UnknownIdent, c17::Rule::StructFieldDrop, c17::Rule::UnusedFn, c17::Rule::OperandKind].iter().enumerate() {
+    let n_mut = tier.pick(1usize, 12usize);
+    for (k, rule) in c17::ALL_RULES.iter().cycle().take(c17::ALL_RULES.len() * n_mut).enumerate() {
         if let Some((m, what)) = c17::mutate(&bases[(k * 37 + 5) % bases.len()].1, *rule, 0) {
             let mut p = m.clone();
             let n = p.assign_ids();
